@@ -346,6 +346,11 @@ class C19(core.Check):
                                                                       "`\\u12`", "`\\U1`"])])
         elif x_ < 0.24:
             nodes.insert(rw.randint(0, len(nodes)), ["t", rw.choice(["□", "□ ,", "□ E", "□ h E ,"])])
+        elif x_ < 0.28:
+            # code run through Ė that fails while running (ValueError from chr, SyntaxError from an uncompilable template,
+            # a name error): the error is the program's error, online as offline
+            nodes.insert(rw.randint(0, len(nodes)), ["t", rw.choice(["`9999999C` Ė", "`¨…` Ė", "`1 9999999C 2` Ė ,", "`←zz` Ė", "`1 0 %` Ė",
+                                                                      "`3 ( 9999999C )` Ė `after` ,"])])
         rp_ = sub_rng(seed, self.id, run, "polyglot")
         if rp_.random() < 0.03:
             # a program the PARSER rejects (a lambda whose arity is not an integer) that is at the same time valid Python
@@ -532,6 +537,14 @@ class C19(core.Check):
             if on["vy_evals"] > len(inputs) or off["vy_evals"] > len(inputs):
                 mode_dependent = True  # the program itself reached vy_eval (E, J on two numbers, ...)
                 cov.add("probe:program-reaches-vy_eval")
+            # (Ė runs Vyxal code the same way in both modes: it does not make the ERROR behaviour mode-dependent)
+            error_md = (case.get("uses_eval") or any(t in text for t in ("E", "†", "¨U")) or "c" in flags
+                        or on["vy_evals"] > len(inputs) or off["vy_evals"] > len(inputs))
+            if (not error_md and off["outcome"].startswith("raised:")
+                    and on["outcome"] == "ok" and not on["rec2"].strip()):
+                # the very same program and inputs fail offline, but the online run neither stopped nor reported anything
+                return fail("error-lost", f"offline the program ends with {off['outcome']}; online it finished 'normally' with an "
+                                          f"empty error record (output record {on['rec1'][:60]!r})")
             if not mode_dependent and off["outcome"] == "ok" and on["outcome"] == "ok":
                 if on["rec1"] != off["stdout"]:
                     return fail("record-differs", f"online record {on['rec1'][:80]!r} != offline stdout {off['stdout'][:80]!r}")
